@@ -239,6 +239,11 @@ pub fn run(ctx: &mut Ctx) {
             ctx.count("archives_with_redundant_metadata_above_1_mib");
         }
         let mat = l.describe();
+        if i % 6 == 2 {
+            // failed writes (and a refused directory) on this thread right before the write under observation
+            crate::checks::common::failing_calls_before(&mut rng, None);
+            ctx.count("writes_preceded_by_failed_calls");
+        }
         let asyncw = i % 5 == 4;
         let api = if asyncw { "PMTiles::to_async_writer" } else { "PMTiles::to_writer" };
         let written = if asyncw {
@@ -287,6 +292,25 @@ pub fn run(ctx: &mut Ctx) {
         ctx.max("content_bytes_in_one_archive", l.tiles.values().map(|c| c.len() as u64).sum());
         let probes = absent_probes(&l, &mut rng, 200);
         ctx.add("absent_ids_probed", probes.len() as u64);
+        if i % 6 == 2 || i % 6 == 4 {
+            // failed opens of cut / damaged copies of these very bytes right before the open under observation
+            crate::checks::common::failing_calls_before(&mut rng, Some(&bytes));
+            ctx.count("opens_preceded_by_failed_calls");
+        }
+        if i % 10 == 3 && bytes.len() < (2 << 20) {
+            // the same bytes through a reader that returns fewer bytes than asked for
+            let mut rd = crate::io::Inst::new(bytes.clone());
+            rd.c.rsched = crate::io::Sched::Random(Rng::new(rng.next()), *rng.pick(&[3usize, 100, 5000]));
+            let r = guard(|| -> Result<(), String> {
+                let mut pm = PMTiles::from_reader(&mut rd).map_err(|e| format!("open failed: {e}"))?;
+                compare_open_sync(&mut pm, &l, stored, &probes)
+            });
+            match r {
+                Err(p) => ctx.panic("PMTiles::from_reader", &p, mat.clone()),
+                Ok(Err(e)) => ctx.violation("write→read", "tiles", "round trip through a reader with short reads differs", &e, mat.clone()),
+                Ok(Ok(())) => ctx.count("round_trips_through_short_reads_equal"),
+            }
+        }
         match guard(|| PMTiles::from_bytes(bytes.clone())) {
             Err(p) => ctx.panic("PMTiles::from_bytes", &p, mat),
             Ok(Err(e)) => ctx.violation("PMTiles::from_bytes", "open-error", "opening the written bytes failed", &e.to_string(), mat),
